@@ -215,7 +215,10 @@ def worker_env(variant):
     if variant != "plain":
         pre.insert(0, B.asan_rt())
     env["LD_PRELOAD"] = " ".join(pre)
-    env["ASAN_OPTIONS"] = "detect_leaks=0:abort_on_error=0:exitcode=99:allocator_may_return_null=1:detect_stack_use_after_return=0:handle_segv=1"
+    os.makedirs(os.path.join(B.BUILD, "asanlogs"), exist_ok=True)
+    # reports go to files (asanlogs/asan.<pid>): some checks redirect fd 2 while the library runs
+    env["ASAN_OPTIONS"] = ("detect_leaks=0:abort_on_error=0:exitcode=99:allocator_may_return_null=1:detect_stack_use_after_return=0:handle_segv=1"
+                           ":log_path=" + os.path.join(B.BUILD, "asanlogs", "asan"))
     env["UBSAN_OPTIONS"] = "print_stacktrace=1:halt_on_error=1"
     env["PYTHONHASHSEED"] = "0"
     env["VERIF_VARIANT"] = variant
@@ -235,6 +238,7 @@ def spawn_single(pid, subname, case, variant, suppress, timeout=600):
     fd, path = tempfile.mkstemp(prefix="single_", suffix=".json", dir=d)
     with os.fdopen(fd, "w") as f:
         json.dump({"property": pid, "sub": subname, "case": case, "variant": variant, "suppress": suppress}, f)
+    t0 = time.time()
     try:
         r = subprocess.run([PY, "-m", "vlib.worker", "--single", path], env=worker_env(variant), cwd=ROOT,
                            capture_output=True, text=True, timeout=timeout)
@@ -248,7 +252,7 @@ def spawn_single(pid, subname, case, variant, suppress, timeout=600):
         os.unlink(path + ".out")
     os.unlink(path)
     if out is None:
-        err = r.stderr or ""
+        err = (r.stderr or "") + "\n" + _asan_log_since(t0)
         i = err.find("ERROR: AddressSanitizer")
         if i < 0:
             i = err.find("runtime error:")
@@ -257,6 +261,20 @@ def spawn_single(pid, subname, case, variant, suppress, timeout=600):
     if out.get("result") is None:
         return "pass", None
     return "fail", out["result"]
+
+
+def _asan_log_since(t0):
+    """content of the sanitizer report files written since t0 (newest first), removed after reading"""
+    d = os.path.join(B.BUILD, "asanlogs")
+    out = []
+    try:
+        for fn in sorted(os.listdir(d), key=lambda f: -os.path.getmtime(os.path.join(d, f))):
+            p = os.path.join(d, fn)
+            if os.path.getmtime(p) >= t0 - 1:
+                out.append(open(p, errors="replace").read())
+    except OSError:
+        pass
+    return "\n".join(out)
 
 
 def _crash_key(stderr):
@@ -459,6 +477,8 @@ def drive(prop, tier, seed, only=None, jobs=None, scale=1.0):
                 tail = open(out + ".log").read()[-3000:]
             except OSError:
                 pass
+            if "Sanitizer" not in tail and "runtime error" not in tail:
+                tail += "\n" + _asan_log_since(t_start)[:3000]
             try:
                 os.makedirs(os.path.join(B.BUILD, "crashlogs"), exist_ok=True)
                 shutil.copy(out + ".log", os.path.join(B.BUILD, "crashlogs", "%s_%s_%s_%d.log" % (prop.pid, name, variant, i)))
